@@ -104,7 +104,7 @@ type frameClient struct {
 	Frames  map[string]int  // type -> number of Start sites explored
 	Ends    int
 	root    *ssa.Function
-	frag    bool            // the current root turned out to be a fragment helper
+	frag    bool // the current root turned out to be a fragment helper
 	OnMsg   func(x *core.TSCtx, site ssa.CallInstruction, typ byte)
 	okSites map[string]string
 }
